@@ -239,6 +239,26 @@ example : stripSpaceBytes [97, 120, 98, 32, 99, 32] = stripSpaceBytes [97, 32, 1
     rcases hb with rfl | rfl | rfl | rfl <;> decide)
 
 example : stripSpaceBytes [97, 120, 98, 32, 99, 32] = [97, 120, 98, 99] := by decide
+
+/-- Non-vacuity of `hyphen_ops` / `hyphen_ops_root`: the hypotheses hold for `hyDemoTpl` (which has a
+    hyphen next to whitespace text on every side, one of them inside a block) -/
+example : ∃ ops o, TracedAtL (renderList hyCtx hyDemoTpl) hyDemoEnv ops o ∧
+    TracedAtL (renderList hyCtx (stripTrims hyDemoTpl)) hyDemoEnv (eraseTrims ops) o :=
+  hyphen_ops hyCtx hyCtx_quiet hyDemoTpl rfl hyDemoEnv
+
+/-- Non-vacuity of `hyphen_same_outcome` / `hyphen_fails_iff` on a FAILING render:
+    `a␠{{- … }}{% cycle "b" %}` outside a loop fails at the cycle tag, and so does its hyphen-free
+    version, with the same error -/
+example :
+    (renderRoot hyCtx [.text 1 [97, 32], .trim true, .cycle 2 [] [98] []] []).runPure.2 =
+      .err (.located ⟨2, true, .none, .cycleOutside⟩) ∧
+    (renderRoot hyCtx (stripTrims [.text 1 [97, 32], .trim true, .cycle 2 [] [98] []]) []).runPure.2 =
+      .err (.located ⟨2, true, .none, .cycleOutside⟩) := by
+  have h : (renderRoot hyCtx [.text 1 [97, 32], .trim true, .cycle 2 [] [98] []] []).runPure.2 =
+      .err (.located ⟨2, true, .none, .cycleOutside⟩) := by
+    have h0 : trimRightSpace [97, 32] = [97] := by decide
+    hy_eval [h0, M.getVar, M.fail, cyclesOf, errorfAt, wrapError]
+  exact ⟨h, (hyphen_fails_iff hyCtx hyCtx_quiet _ rfl [] _).1 h⟩
 example : capTrimFree hyDemoTpl = true ∧ hasTrim hyDemoTpl = true := ⟨rfl, rfl⟩
 
 /-- Non-vacuity of `hyphen_free_identity`: a tree without hyphens, whitespace kept as written -/
